@@ -103,8 +103,8 @@ def _tool(kind, sname, dup=False):
                     '_p2.dat; printf "%s\\n" "' + third + '" > ' + sname + "_p3.dat", "$(inputs.m)"))
         t.update(inputs=ins, outputs={"o": {"type": "File[]", "outputBinding": {"glob": sname + "_p*.dat"}}})
     elif kind == "join":
-        t.update(sh('shift 0; for f in "$@"; do cat "$f"; done', "$(inputs.f.map(function(x){return x.path;}))"))
-        t = {"class": "CommandLineTool", "cwlVersion": "v1.2", "baseCommand": ["cat"],
+        # /dev/null first: with an empty array a bare `cat` would wait on stdin for ever
+        t = {"class": "CommandLineTool", "cwlVersion": "v1.2", "baseCommand": ["cat", "/dev/null"],
              "inputs": {"f": {"type": "File[]", "inputBinding": {"position": 1}}},
              "stdout": sname + ".txt", "outputs": {"o": "stdout"}}
     return t
